@@ -174,7 +174,7 @@ func (e *Enc) inlineCall(fr *Frame, st *State, callee *ssa.Function, args []*Val
 }
 
 func (e *Enc) invoke(fr *Frame, st *State, cc *ssa.CallCommon, recv *Val, args []*Val, rt types.Type, site ssa.Instruction) *Val {
-	it := cc.Value.Type()
+	it := types.Unalias(cc.Value.Type())
 	name := cc.Method.Name()
 	if n, ok := it.(*types.Named); ok {
 		tn := n.Obj().Name()
@@ -815,7 +815,7 @@ func (e *Enc) callWriteSet(fr *Frame, li *loopInfo, st *State, cc *ssa.CallCommo
 	}
 	*allocs = true
 	if cc.IsInvoke() {
-		if n, ok := cc.Value.Type().(*types.Named); ok {
+		if n, ok := types.Unalias(cc.Value.Type()).(*types.Named); ok {
 			tn := n.Obj().Name()
 			if tn == "ILogger" || tn == "IRaftEventListener" || tn == "ISystemEventListener" || (tn == "error" && cc.Method.Name() == "Error") {
 				return
